@@ -92,6 +92,10 @@ SHAPES = {
     "add_html_class_onto_plain_prepend": case(kw=[("class_", X)], ops=[{"op": "add_class", "v": HV("hc"), "prepend": True}]),
     "add_class_twice_mixed": case(kw=[("class_", X)], ops=[{"op": "add_class", "v": HV("h1"), "prepend": False},
                                                             {"op": "add_class", "v": X, "prepend": True}]),
+    "remove_other_class_html_arg": case(kw=[("class_", {"t": "str", "s": "\0X\0 keep gone"})], ops=[{"op": "remove_class", "v": HV("gone")}]),
+    "remove_other_class_str_arg": case(args=[[("class", X)], [("class", S("zz"))]], ops=[{"op": "remove_class", "v": S(" zz ")}]),
+    "remove_then_add": case(kw=[("class_", X)], ops=[{"op": "add_class", "v": S("tmp"), "prepend": True}, {"op": "remove_class", "v": HV("tmp")},
+                                                       {"op": "add_class", "v": S("end"), "prepend": False}]),
     "style_plain_then_html": case(kw=[("style", X)], ops=[{"op": "add_style", "v": HV("color:red;"), "prepend": False}]),
     "style_html_then_plain": case(kw=[("style", HV("a:b;"))], ops=[{"op": "add_style", "v": {"t": "str", "s": "\0X\0;"}, "prepend": True}]),
     "style_append": case(ops=[{"op": "add_style", "v": {"t": "str", "s": "\0X\0;"}, "prepend": False},
@@ -183,12 +187,15 @@ def rand_case(rng):
     kw = pairs(rng.randint(0, 4))
     ops = []
     for _ in range(rng.randint(0, 4)):
-        o = rng.choice(["update", "setitem", "add_class", "add_style"])
+        o = rng.choice(["update", "setitem", "add_class", "add_style", "remove_class"])
         if o == "update":
             ops.append({"op": "update", "args": [{"d": pairs(rng.randint(0, 2))} for _ in range(rng.randint(0, 2))],
                         "kw": pairs(rng.randint(0, 2))})
         elif o == "setitem":
             ops.append({"op": "setitem", "name": rng.choice(RAW_NAMES), "v": rand_value(rng)})
+        elif o == "remove_class":
+            tok = rng.choice(["k", "h", "x", "y", "hello", "foo"])
+            ops.append({"op": "remove_class", "v": rng.choice([S, HV])(rng.choice([tok, " " + tok, tok + "\n"]))})
         elif o == "add_class":
             v = rand_value(rng)
             if v["t"] in ("num", "true", "false"):
